@@ -729,6 +729,49 @@ Definition p_true : N -> text -> bool := fun _ _ => true.
 Definition ascii_upper (c : char) : char := if (97 <=? c) && (c <=? 122) then c - 32 else c.
 Definition lf_upper : lfun := map (map ascii_upper).
 
+(** replace [-preserve-new-lines] REGEX REPLACEMENT (replace/impl.py).  [sub] is what the regex
+    substitution does to one string.  [_lines_iterator_from_replacements]: the substituted lines are
+    cut after each "\n"; pieces are collected in [segments] until a "\n" is seen. *)
+Fixpoint rep_feed (seg : text) (s : text) : list text * text :=
+  match s with
+  | [] => ([], seg)
+  | c :: s' =>
+      if c =? NL
+      then let (ys, r) := rep_feed [] s' in ((seg ++ [c]) :: ys, r)   (* segments.append(..); yield ''.join(segments) *)
+      else rep_feed (seg ++ [c]) s'
+  end.
+
+Fixpoint replace_lines (sub : text -> text) (seg : text) (ls : list text) : list text :=
+  match ls with
+  | [] => match seg with [] => [] | _ => [seg] end                    (* rest = ''.join(segments) *)
+  | l :: ls' => let (ys, seg') := rep_feed seg (sub l) in ys ++ replace_lines sub seg' ls'
+  end.
+
+Definition lf_replace (sub : text -> text) : lfun := replace_lines sub [].
+
+(** _StrReplacerExcludingNewLines: -preserve-new-lines *)
+Definition sub_preserving_nl (sub : text -> text) (l : text) : text :=
+  if N.eqb (last l 0) NL then sub (removelast l) ++ [NL] else sub l.
+
+(** The substitution of a regex that is a literal, non-empty string [pat]: non-overlapping
+    occurrences from the left are replaced by [rep] ([skip] = characters of a match still to drop). *)
+Fixpoint is_prefix (p s : text) : bool :=
+  match p, s with
+  | [], _ => true
+  | a :: p', c :: s' => N.eqb a c && is_prefix p' s'
+  | _ :: _, [] => false
+  end.
+Fixpoint subst_go (pat rep : text) (skip : nat) (s : text) : text :=
+  match s with
+  | [] => []
+  | c :: s' =>
+      match skip with
+      | S k => subst_go pat rep k s'
+      | O => if is_prefix pat s then rep ++ subst_go pat rep (length pat - 1) s' else c :: subst_go pat rep 0 s'
+      end
+  end.
+Definition subst (pat rep : text) : text -> text := subst_go pat rep 0.
+
 (** External programs used by the correspondence cases (functions on the bytes of valid texts). *)
 Definition g_cat : raw -> raw := fun r => r.                                         (* cat *)
 Definition swap_ab (c : char) : char := if c =? 97 then 98 else if c =? 98 then 97 else c.
@@ -740,7 +783,8 @@ Inductive tatom :=
 | TId                                   (* identity: IdentityStringTransformer, is_identity_transformer *)
 | TUpper                                (* char-case -to-upper: _CaseConverter *)
 | TFilter (p : N -> text -> bool)       (* filter LINE-MATCHER: _FilterByLineMatcher *)
-| TRun (g : raw -> raw).                (* run PROGRAM (no -stdin): transformed_by_program *)
+| TRun (g : raw -> raw)                 (* run PROGRAM (no -stdin): transformed_by_program *)
+| TReplace (sub : text -> text).        (* replace REGEX REPLACEMENT: _ReplaceStringTransformer (no line selector) *)
 
 Inductive trans :=
 | TAtom (a : tatom)
@@ -754,6 +798,7 @@ Definition transform_atom (a : tatom) (x : src) : src :=
   | TUpper => SLines lf_upper false None false x
   | TFilter p => SFilter (lf_filter p) cs0 x
   | TRun g => SRun g cs0 x
+  | TReplace sub => SLines (lf_replace sub) false None false x
   end.
 
 (** SequenceStringTransformer.transform: identity operands are dropped at construction. *)
